@@ -298,7 +298,7 @@ def _dominated_by_state_test(rep, f, e, key, C, allowed_from, consts, cur_op=Non
         if not near:
             rep.ob("R06.3", "from|" + key, False, "no lifecycle load dominates this store", e.where())
             return
-        vals = valueflow.values_at_term(f, at, e.block, near[0].dest.l)
+        vals = valueflow.values_at_term(f, at, e.block, ("ghost", near[0].block))
     name = {int(v): n for n, v in consts.items()}
     bad = sorted(str(name.get(v, v)) for v in vals if v not in allowed_vals)
     rep.ob("R06.3", "from|" + key, bool(vals) and not bad,
